@@ -6,12 +6,17 @@ links, explicit loopbacks); the same graph is built as a Floyd, a Dijkstra, a Di
   T  every returned route must be a chain of declared one-hop routes taken on a minimal chain (HierTrace), its number of
      links must be TLC's minimum, the three algorithms must agree, Full must return exactly the declared route;
      DijkstraCache is asked every pair twice, in two different orders (route cache).
-Mutations: see the end of this docstring."""
+Binding demonstrated (scratch worktree of /repo, quick tier):
+  * proposed/fix-C25-dijkstra.diff applied: 1666 routes asked, 1666 accepted, no known finding;
+  * m4 FloydZone::do_seal relaxes with cost[a][c] < cost[a][b] (second leg of the detour ignored): CAUGHT (exit 1, 216
+    routes that are not on a minimal chain / link count above TLC's minimum);
+  * m5 DijkstraZone keys its route cache by the destination: CAUGHT (exit 1, 411 routes of the DijkstraCache platforms)."""
 import random
 import vlib
 import routing_common as R
 
 LEVEL = "model_checking"
+META = {'text': "For seeded random connected graphs (<= 30 nodes, one-hop routes of 1..3 links, symmetrical or not) built as Floyd, Dijkstra, DijkstraCache and Full zones, TLC computes the minimal link count of every pair (spec/routing/ShortestPath.tla), explores every minimal chain, and validates every route returned by Host::route_to as a chain of declared one-hop routes lying on a minimal chain (Full: exactly the declared route); the harness compares the number of links with TLC's minimum and across the three algorithms; DijkstraCache is asked every pair twice in two orders.", 'note': 'Trusted: TLC, the driver, the mapping of link names. Bounded to the generated graphs. Routes whose only deviation is the recorded DijkstraZone defect (links of a multi-link one-hop route returned in reverse order) are reported as KNOWN-FINDING; their link counts are still compared with the minimum.', 'technique': 'TLC evaluation of ShortestPath!SpDist (G) + TLC model checking and trace validation with Hier (M+T)'}
 DRIVERS = R.DRIVERS
 KINDS = ["floyd", "dijkstra", "dijkstracache", "full"]
 
